@@ -64,6 +64,14 @@ func chainExec(t []string) (string, bool) {
 		sim.Exec([]string{"reset"})
 		sim.N.Params.MemoryFirst = true // no transaction cache in front of the region reads
 		return "ok", true
+	case "crestart":
+		// node restart on the same data directory: the chain store is reopened, the tx index
+		// re-initialises itself (TxIndex.Init: current block id by binary search)
+		if !strings.HasPrefix(sim.Exec([]string{"restart"}), "ok") {
+			return "restart-failed", true
+		}
+		sim.N.Params.MemoryFirst = true
+		return "ok", true
 	case "cdeliver":
 		lastReply = sim.Exec(append([]string{"deliver"}, t[1:]...))
 		return "done", true
@@ -148,6 +156,11 @@ func chainExec(t []string) (string, bool) {
 
 func chainOracle(t []string, out string) (*hx.Violation, bool) {
 	switch t[0] {
+	case "crestart":
+		if out != "ok" {
+			return viol("chain-restart-failed", "node restart answered "+out), true
+		}
+		return nil, true
 	case "cnode", "cdeliver":
 		return nil, true
 	case "cblock":
@@ -248,37 +261,62 @@ func genChainHistory(g *hx.Gen, steps int) {
 		}
 		return nb
 	}
+	honest := func() {
+		b := h.HonestBlock(active, 3)
+		deliver(active, b)
+		look(b, true)
+	}
+	// a longer branch from 1–2 blocks back: disconnects blocks, their index entries must go
+	reorg := func(depth int) {
+		old := active
+		br := regnet.Fork(active, len(active.Blocks)-depth)
+		for k := 0; k <= depth; k++ {
+			b := h.HonestBlock(br, 3)
+			br = deliver(br, b)
+		}
+		on := onActive()
+		for _, b := range old.Blocks[len(old.Blocks)-depth:] {
+			look(b, false) // still in the block store
+			for _, tx := range b.Transactions {
+				if !on[regnet.ID(tx.Hash())] {
+					g.Emit("ctxmiss %s", regnet.ID(tx.Hash()))
+				}
+			}
+		}
+		for _, b := range active.Blocks[len(active.Blocks)-depth-1:] {
+			look(b, true)
+		}
+	}
+	lookRecent := func(n int) {
+		for i := len(active.Blocks) - 1; i >= 0 && i >= len(active.Blocks)-n; i-- {
+			look(active.Blocks[i], true)
+		}
+	}
 	for s := 0; s < steps; s++ {
 		c := r.Intn(100)
 		switch {
+		case s%5 == 4 && len(active.Blocks) >= 5:
+			// reorganisation, node restart (TxIndex.Init recovers the current internal block id
+			// from the id bucket), more blocks: every block connected around the reorganisation
+			// must still be found through its transactions' index entries
+			reorg(1 + r.Intn(2))
+			g.Emit("crestart")
+			for k := 0; k < 3; k++ {
+				honest()
+				lookRecent(8)
+			}
 		case c < 80 || len(active.Blocks) < 3:
-			b := h.HonestBlock(active, 3)
-			deliver(active, b)
-			look(b, true)
-		default: // a longer branch from 1–2 blocks back: disconnects blocks, their index entries must go
-			depth := 1 + r.Intn(2)
-			old := active
-			br := regnet.Fork(active, len(active.Blocks)-depth)
-			for k := 0; k <= depth; k++ {
-				b := h.HonestBlock(br, 3)
-				br = deliver(br, b)
-			}
-			on := onActive()
-			for _, b := range old.Blocks[len(old.Blocks)-depth:] {
-				look(b, false) // still in the block store
-				for _, tx := range b.Transactions {
-					if !on[regnet.ID(tx.Hash())] {
-						g.Emit("ctxmiss %s", regnet.ID(tx.Hash()))
-					}
-				}
-			}
-			for _, b := range active.Blocks[len(active.Blocks)-depth-1:] {
-				look(b, true)
-			}
+			honest()
+		default:
+			reorg(1 + r.Intn(2))
 		}
 		if r.Chance(15) && len(active.Blocks) > 0 { // older blocks again (block files, caches)
 			b := active.Blocks[r.Intn(len(active.Blocks))]
 			look(b, true)
+		}
+		if r.Chance(8) && len(active.Blocks) > 2 { // node restart: reopened store, TxIndex.Init
+			g.Emit("crestart")
+			lookRecent(3)
 		}
 	}
 	_ = all
